@@ -176,6 +176,19 @@ func GenC16(seed uint64) *Scenario {
 		}
 	} else {
 		s.Family = "deterministic_failure"
+		if r.Chance(1, 3) {
+			// the failing job (or its neighbours) first fails transiently: the failure code must survive the retries
+			s.Family = "deterministic_failure_after_retries"
+			q.Prod = true
+			q.DebugSnap = nil
+			s.Rates = map[string]int{}
+			s.MaxF = map[string]int{}
+			for i := 0; i < r.Range(1, 2); i++ {
+				k := []string{"unavailable_at_call", "reset_mid_stream", "t2_crash", "silent_partition"}[r.Intn(4)]
+				s.Rates[k] = []int{300, 600}[r.Intn(2)]
+				s.MaxF[k] = r.Range(1, 3)
+			}
+		}
 		anc := b.pkg.Ancestors(q.Output)
 		var cands []*ModDef
 		for _, m := range b.pkg.Mods {
